@@ -153,6 +153,42 @@ pub fn zero_tag_family() -> Vec<(String, ModelSpec)> {
     pool
 }
 
+/// T8: candidate scores of LARGE magnitude (weights are 32-bit in the model): biases from {0, +-1, 2^28-1, 2^28,
+/// 2^28+1, +-3e8, +-2^30}, tag weights from {0, +-1, +-2^27, 5}, rotated over the candidates, for class counts on
+/// both sides of the fixed(8)/variable switch; no sum leaves the i32 range.
+pub fn extreme_tag_family() -> Vec<(String, ModelSpec)> {
+    let big: [i32; 11] = [0, 1, -1, (1 << 28) - 1, 1 << 28, (1 << 28) + 1, 300_000_000, -300_000_000, 1 << 30, -(1 << 30), -(1 << 28)];
+    let mid: [i32; 6] = [0, 1, -1, 1 << 27, -(1 << 27), 5];
+    let mut pool = vec![];
+    let pool6 = ngram_pool(2);
+    for shape in [vec![3usize], vec![3, 2], vec![2, 2, 2], vec![9], vec![2, 3, 4]] {
+        for k in 0..big.len() {
+            let mut m = boundary_part(0, 2);
+            let mut tm = tag_model("a", &shape, &[pool6[0].clone(), pool6[7].clone()], 0, 77);
+            for (c, b) in tm.bias.iter_mut().enumerate() {
+                *b = big[(c * 3 + k) % big.len()];
+            }
+            for d in tm.char_ngram_model.iter_mut() {
+                for w in d.weights.iter_mut() {
+                    for (c, x) in w.weights.iter_mut().enumerate() {
+                        *x = mid[(c + k) % mid.len()];
+                    }
+                }
+            }
+            for d in tm.type_ngram_model.iter_mut() {
+                for w in d.weights.iter_mut() {
+                    for (c, x) in w.weights.iter_mut().enumerate() {
+                        *x = mid[(c * 2 + k + 1) % mid.len()];
+                    }
+                }
+            }
+            m.tag_models.push(tm);
+            pool.push((format!("T8 extreme tag scores shape={shape:?} rotation={k}"), m));
+        }
+    }
+    pool
+}
+
 /// T7: container sizes beyond a few thousand entries (capacity / size thresholds of the serialised
 /// maps): `n` tag-model tokens, and `n` tag n-grams for ONE (token, relative position). The tokens
 /// and n-grams the texts exercise ("a", "ab", "b", "ba") are spread over the whole list.
@@ -495,6 +531,7 @@ pub fn run(tier: Tier) -> ! {
     let texts = gen::strings(&sigma, 1, l);
     let mut cases = families(tier);
     cases.extend(zero_tag_family().into_iter().map(|(desc, spec)| Case { spec, desc: format!("T5 {desc}") }));
+    cases.extend(extreme_tag_family().into_iter().map(|(desc, spec)| Case { spec, desc }));
     cases.extend(nested_tag_family().into_iter().step_by(tier.pick(3, 1)).map(|(desc, spec)| Case { spec, desc }));
     cases.extend(scale_tag_family(tier.pick(5000, 70000)).into_iter().map(|(desc, spec)| Case { spec, desc }));
     chk.set("models", json!(cases.len()));
